@@ -1536,3 +1536,35 @@ def placeholder_identity(run, model, rule="C06.placeholder-identity"):
         count += 1
         run.check(bad is None, rule, fi.qual, "%d test(s) of the unknown marker, all by identity%s" % (n_tests, (" (exempt: %s)" % STRINGS_ONLY[fi.name]) if fi.name in STRINGS_ONLY else ""), "the unknown marker is tested with `%s`: that calls __eq__ of the user's values -- a permissive __eq__ makes a known value count as unknown (its expression vanishes from the message), a strict one raises while the message is built" % (src_of(bad, 60) if bad is not None else ""), fi.loc(bad) if bad is not None else fi.loc(), None, src_of(bad, 60) if bad is not None else None)
     return count
+
+
+def trace_only_unhappy(run, model, rule="C07.trace-only-unhappy"):
+    """The tracing function generated for ``all(<generator>)`` is built and run only after the real ``all`` gave a
+    falsy result.  Its 'happy' return reads a variable that is bound inside the loops: for an empty iteration (a
+    vacuously true quantifier next to another, violated operand) it is unbound, and the UnboundLocalError replaces
+    the violation."""
+    translate = model.func("_recompute._translate_all_expression_to_a_module")
+    # the method is found by its role: the one of the re-computing visitor that has the tracing function built
+    fi = flow = None
+    targets, real = [], []
+    for cand in sorted(model.methods("_recompute", "Visitor"), key=lambda f_: f_.qual):
+        cfl = get_flow(model, cand)
+        tg = [n for n in cfl.cfg.nodes for call, c, a in calls_in(n) if fi_of_term(model, strip_sites(cfl.term(call.func, n))) is translate]
+        if tg:
+            fi, flow, targets = cand, cfl, tg
+            break
+    if fi is None:
+        raise AnalysisError("_recompute.Visitor: no method calls %s (where is the tracing function built?)" % translate.qual)
+    run.saw(flow)
+    gg = GuardGraph(flow)
+    for n in flow.cfg.nodes:
+        for call, c, a in calls_in(n):
+            t = strip_sites(flow.term(call.func, n))
+            if t[0] == "param" and t[1] != fi.params[0]:
+                real.append((n, flow.term(call, n)))
+    ok = False
+    for n, rt in real:
+        atoms = [a for (nid, k), (kn, _at) in gg.edge_facts.items() for a, pol in kn if strip_sites(a) == strip_sites(rt)]
+        if any(gg.necessary([flow.cfg.entry], [x.id for x in targets], (a, False)) for a in atoms):
+            ok = True
+    run.check(ok, rule, fi.qual, "the tracing function is generated and run only when the quantifier itself was falsy", "the tracing function is generated and run without the quantifier having been found falsy first: for an empty iteration its result variable is never bound, and an UnboundLocalError (wrapped as 'Failed to recompute') replaces the violation of the contract", fi.loc(targets[0]), None, first_line(targets[0].stmt))
